@@ -78,7 +78,8 @@ pub fn c08(t: &dyn TypeOps, cx: &mut Cx) {
         let expect = match t.eps(placed) { Out::Ok((v, _)) => v, _ => { cx.outcome("skipped-eps-of-bytes-fails"); continue; } };
         cx.case(case_hash(cx, &want), true);
         cx.evals += 1;
-        // store writes exactly the serialized bytes
+        // store writes exactly the serialized bytes, also over an existing, longer file
+        if n > 1 { let _ = t.store(n - 1, &path); let _ = std::fs::OpenOptions::new().append(true).open(&path).and_then(|mut f| std::io::Write::write_all(&mut f, &[0x77; 200])); }
         match t.store(i, &path) {
             Out::Ok(()) => {}
             o => { cx.violate(&format!("store-{}", o.class()), json!({"value": vdesc(i, &want), "observed": o.describe()})); continue; }
